@@ -156,6 +156,17 @@ fn c02_mutable_response_yielded_iff_key_matches_target_and_signature_verifies() 
     let k0: u8 = kani::any();
     let mut k = [0x11u8; 32];
     k[0] = k0;
+    // arbitrary pre-state of the lookup: it may already have yielded an item — possibly one with the
+    // very same seq and signature (a second responder replaying them around another value)
+    let prior: bool = kani::any();
+    let prior_same_seq: bool = kani::any();
+    if prior {
+        let pitem = mstub::item(target, [0x11; 32], if prior_same_seq { seq } else { seq.wrapping_add(1) }, Box::new([0xEE]), [0x22; 64], None);
+        match c.iterative_queries.a.as_mut() {
+            Some(e) => iq::push_response(&mut e.1, Response::Mutable(pitem)),
+            None => unreachable!(),
+        }
+    }
     let n_nodes: usize = 1; // (node merging has its own obligation: c07_valueless_responses_*)
     let from = SocketAddrV4::new(kani::any::<u32>().into(), kani::any());
     let signed_version: bool = kani::any();
@@ -174,7 +185,7 @@ fn c02_mutable_response_yielded_iff_key_matches_target_and_signature_verifies() 
     } else {
         assert!(r.is_none(), "C02: nothing else is ever yielded for a get_mutable response");
     }
-    assert!(responses_recorded(&c, &target) == if authentic { 1 } else { 0 }, "only authentic items are remembered for later callers");
+    assert!(responses_recorded(&c, &target) == (if prior { 1 } else { 0 }) + (if authentic { 1 } else { 0 }), "only authentic items are remembered for later callers");
     // C07: every listed node becomes a candidate, the responder (it sent a token) a responding node
     assert!(unsafe { CAND_CALLS } == n_nodes as u32 + 1 && unsafe { RESPONDER_WITH_TOKEN } == 1, "C07: every node listed in a response is offered to the lookup's candidate list; the responder is recorded with its token");
     // C14/C13: an expected response (re-)admits the responder to the routing table(s)
@@ -183,6 +194,7 @@ fn c02_mutable_response_yielded_iff_key_matches_target_and_signature_verifies() 
         assert!(unsafe { RT_ADD_ID0 } == RESPONDER && unsafe { RT_ADD_IP } == from.ip().to_bits(), "C14: the responder is (re-)added with the address it answered from");
     }
     kani::cover!(r.is_some() && with_salt);
+    kani::cover!(r.is_none() && prior && prior_same_seq && sig_ok, "a replay of an already seen (seq, signature) around a key that does not belong to the target is still dropped");
     kani::cover!(r.is_none() && sig_ok, "validly signed by a key that does not belong to the target: dropped");
     kani::cover!(r.is_none() && target_ok, "corrupted signature: dropped");
     core::mem::forget(r);
